@@ -144,6 +144,17 @@ def gasBoundBad (divisor parentLimit limit : Nat) : Bool :=
   let diff := if parentLimit ≥ limit then parentLimit - limit else limit - parentLimit
   decide (diff ≥ parentLimit / divisor) || decide (limit < minGasLimit)
 
+/-- `parent.Time + Period > header.Time` (heco, hsc, pixie) -/
+def periodBad (R : Router) (p : Stored) (h : Hdr) : Bool :=
+  match R.period with
+  | some per => decide (p.hdr.time + per > h.time)
+  | none => false
+
+def gasLimitBad (R : Router) (p : Stored) (h : Hdr) : Bool :=
+  match R.gasDivisor with
+  | some d => gasBoundBad d p.hdr.gasLimit h.gasLimit
+  | none => false
+
 /-- Returns the recovered signer. `p` is the stored parent. -/
 def verifyHeader (R : Router) (p : Stored) (h : Hdr) : Except Rej Addr :=
   if h.extra.length < extraVanity then .error .vanity
@@ -156,10 +167,10 @@ def verifyHeader (R : Router) (p : Stored) (h : Hdr) : Except Rej Addr :=
   -- verifyCascadingFields
   else if p.hdr.number + 1 != h.number then .error .ancestor
   else if R.capLate && h.gasLimit > gasCap then .error .gascap
-  else if (match R.period with | some per => decide (p.hdr.time + per > h.time) | none => false) then .error .time
+  else if periodBad R p h then .error .time
   else if h.gasUsed > h.gasLimit then .error .gasused
   else if R.baseFeeNil && h.baseFee.isSome then .error .basefee
-  else if (match R.gasDivisor with | some d => gasBoundBad d p.hdr.gasLimit h.gasLimit | none => false) then .error .gaslimit
+  else if gasLimitBad R p h then .error .gaslimit
   -- verifySeal
   else if h.number = 0 then .error .block0
   else match h.signer with
@@ -182,29 +193,42 @@ def lookBack (hdrs : Id → Option Stored) (gid : Id) (target : Addr) : Nat → 
 def hvOf (s : Stored) (vals : List Addr) (withHash : Bool) : HV :=
   ⟨s.hdr.number, vals, if withHash then some s.hdr.id else none⟩
 
+/-- `Extra[32 : len-65]` cut into 20-byte addresses -/
+def Hdr.vals (h : Hdr) : List Addr := chunks20 (h.valBytes.length / addrLen) h.valBytes
+
+/-- First half of one iteration of the `for {}` loop in `getPrevHeightAndValidators`: if the header under the cursor
+announces validators it becomes `phv` (left: continue) or, when `phv` is already known, `pphv` (right: return). -/
+def announce (cur : Stored) (phv : Option HV) : Except Rej (Option HV ⊕ (HV × HV)) :=
+  if cur.hdr.isEpoch then
+    match parseValidators cur.hdr.valBytes with
+    | none => .error .parse
+    | some vals =>
+      match phv with
+      | none => .ok (.inl (some (hvOf cur vals true)))
+      | some p => .ok (.inr (p, hvOf cur vals false))
+  else .ok (.inl phv)
+
+/-- `EpochParentHash` if recorded, else the parent hash -/
+def walkNext (cur : Stored) : Id :=
+  match cur.epochParent with
+  | some e => e
+  | none => cur.hdr.parent
+
 /-- The `for {}` loop that finds the last two epoch headers; `phv` is the first one once it is found. -/
 def walk (hdrs : Id → Option Stored) (g : Genesis) : Nat → Stored → Option HV → Except Rej (HV × HV)
   | 0, _, _ => .error .fuel
   | fuel + 1, cur, phv =>
-    let step (phv : Option HV) : Except Rej (HV × HV) :=
-      let next := match cur.epochParent with
-        | some e => e
-        | none => cur.hdr.parent
-      if next = g.hdr.id then
-        match phv with
+    match announce cur phv with
+    | .error e => .error e
+    | .ok (.inr r) => .ok r
+    | .ok (.inl phv') =>
+      if walkNext cur = g.hdr.id then
+        match phv' with
         | none => .ok ({ g.pv0 with hash := some g.hdr.id }, g.pv1)
         | some p => .ok (p, g.pv0)
-      else match hdrs next with
+      else match hdrs (walkNext cur) with
         | none => .error .getHeader
-        | some s => walk hdrs g fuel s phv
-    if cur.hdr.isEpoch then
-      match parseValidators cur.hdr.valBytes with
-      | none => .error .parse
-      | some vals =>
-        match phv with
-        | none => step (some (hvOf cur vals true))
-        | some p => .ok (p, hvOf cur vals false)
-    else step phv
+        | some s => walk hdrs g fuel s phv'
 
 def walkFuel : Nat := 8
 
@@ -224,13 +248,18 @@ def prevHV (st : St) (g : Genesis) (p : Stored) (h : Hdr) : Except Rej (HV × HV
 
 /-! ## addHeader -/
 
-/-- "Delete any canonical number assignments above the new head" -/
-def delAbove (canon : Nat → Option Id) : Nat → Nat → Nat → Option Id
-  | 0, _ => canon
+/-- "Delete any canonical number assignments above the new head": the loop `for i := number+1; ; i++` stops at the
+first height without an assignment; `firstGap` is that height (at most `fuel` iterations). -/
+def firstGap (canon : Nat → Option Id) : Nat → Nat → Nat
+  | 0, i => i
   | fuel + 1, i =>
     match canon i with
-    | none => canon
-    | some _ => delAbove (upd canon i none) fuel (i + 1)
+    | none => i
+    | some _ => firstGap canon fuel (i + 1)
+
+/-- the assignments at heights `lo ≤ x < hi` deleted -/
+def delRange (canon : Nat → Option Id) (lo hi : Nat) : Nat → Option Id :=
+  fun x => if lo ≤ x ∧ x < hi then none else canon x
 
 /-- "Overwrite any stale canonical number assignments" -/
 def rewrite (hdrs : Id → Option Stored) : Nat → (Nat → Option Id) → Nat → Id → Except Rej (Nat → Option Id)
@@ -251,7 +280,7 @@ def addHeader (st : St) (h : Hdr) (p : Stored) (phv : HV) : Except Rej St :=
       let td := h.difficulty + p.td
       let hdrs' := upd st.hdrs h.id (some ⟨h, td, phv.hash⟩)
       if td > ch.td then
-        let canon1 := delAbove st.canon (st.height - h.number + 1) (h.number + 1)
+        let canon1 := delRange st.canon (h.number + 1) (firstGap st.canon (st.height - h.number + 1) (h.number + 1))
         match rewrite hdrs' (h.number + 1) canon1 (h.number - 1) h.parent with
         | .error e => .error e
         | .ok canon2 =>
@@ -280,6 +309,12 @@ def checkTurn (h : Hdr) (signer : Addr) (indexInTurn : Nat) : List Addr → Nat 
         if h.difficulty != diffNoTurn then .error .turn else checkTurn h signer indexInTurn vs (idx + 1) true
     else checkTurn h signer indexInTurn vs (idx + 1) valid
 
+/-- `lastSeenHeight > 0 && number <= lastSeenHeight + limit` (`none` stands for the initial -1) -/
+def recentBad (lastSeen : Option Nat) (number limit : Nat) : Bool :=
+  match lastSeen with
+  | some l => decide (l > 0) && decide (number ≤ l + limit)
+  | none => false
+
 def syncHeader (R : Router) (st : St) (h : Hdr) : St × Out :=
   if (st.hdrs h.id).isSome then (st, .skipDup)
   else match st.hdrs h.parent with
@@ -297,9 +332,7 @@ def syncHeader (R : Router) (st : St) (h : Hdr) : St × Out :=
             match inTurnSet R h phv pphv with
             | .error e => (st, .reject e)
             | .ok inTurn =>
-              let limit := inTurn.vals.length / 2
-              if (match lastSeen with | some l => decide (l > 0) && decide (h.number ≤ l + limit) | none => false) then
-                (st, .reject .recent)
+              if recentBad lastSeen h.number (inTurn.vals.length / 2) then (st, .reject .recent)
               else if inTurn.vals.length = 0 then (st, .panic)   -- integer divide by zero
               else
                 match checkTurn h signer (h.number % inTurn.vals.length) inTurn.vals 0 false with
@@ -323,5 +356,35 @@ def apply (R : Router) (st : St) : Op → St × Out
 def run (R : Router) (st : St) : List Op → St
   | [] => st
   | o :: os => run R (apply R st o).1 os
+
+/-! ## Vocabulary of the property statements (C29)
+
+The property speaks about a header's own ancestry, independently of the short cuts (`EpochParentHash`) the code takes. -/
+
+/-- `Chain st g id l`: `l` lists the stored headers from `id` back to the trust root, following parent hashes. -/
+inductive Chain (st : St) (g : Genesis) : Id → List Stored → Prop
+  | root (s : Stored) : st.hdrs g.hdr.id = some s → Chain st g g.hdr.id [s]
+  | step (id : Id) (s : Stored) (l : List Stored) :
+      id ≠ g.hdr.id → st.hdrs id = some s → Chain st g s.hdr.parent l → Chain st g id (s :: l)
+
+/-- The validator announcements seen when walking back over the ancestors `l` (parent first, trust root last): every
+ancestor above the trust root whose extra data carries validators, then the trust root's own set and the previous set
+recorded with it. -/
+def epochs (g : Genesis) : List Stored → List HV
+  | [] => []
+  | [_] => [{ g.pv0 with hash := some g.hdr.id }, g.pv1]
+  | s :: t :: rest =>
+    if s.hdr.isEpoch then ⟨s.hdr.number, s.hdr.vals, some s.hdr.id⟩ :: epochs g (t :: rest) else epochs g (t :: rest)
+
+/-- The validator set in effect for a header with the given number whose ancestors are `l`. -/
+def inEffect (R : Router) (g : Genesis) (number : Nat) (l : List Stored) : List Addr :=
+  match epochs g l with
+  | e1 :: e2 :: _ => if R.delayed && decide (number - e1.height ≤ e2.vals.length / 2) then e2.vals else e1.vals
+  | _ => []
+
+/-- total difficulty of a chain -/
+def sumDiff : List Stored → Nat
+  | [] => 0
+  | s :: l => s.hdr.difficulty + sumDiff l
 
 end Poly.Model.LCPosa
